@@ -18,7 +18,7 @@ func (fr *Frame) indexAddr(st *State, in *ssa.IndexAddr) Val {
 		s := x.T
 		fr.safety(st, "index", And(Le(IntLit(0), i), Lt(i, SLen(s))), in.Pos(), in)
 		c, cs := ex.elemsComp(u.Elem())
-		return Val{L: &Loc{Comp: c, CompSort: cs, Keys: []*Term{SArr(s), Add(SOff(s), i)}, Elem: u.Elem()}}
+		return Val{L: &Loc{Comp: c, CompSort: cs, Keys: []*Term{SArr(s), Add(SOff(s), i)}, Elem: u.Elem(), SlOff: SOff(s), SlIdx: i}}
 	case *types.Pointer:
 		arr := u.Elem().Underlying().(*types.Array)
 		fr.safety(st, "index", And(Le(IntLit(0), i), Lt(i, IntLit(arr.Len()))), in.Pos(), in)
